@@ -193,4 +193,28 @@ def wfFrom : List (Str × Nat × Nat) → List Op → Bool
 
 def wf (ops : List Op) : Bool := wfFrom [] ops
 
+/-- the INPUT half of `wf`: declared message types only, only handed-out ids are cancelled -/
+def wfIn : List Op → Bool
+  | [] => true
+  | .sub _ t _ :: ops => decide (t ≤ unknownType) && wfIn ops
+  | .unsub _ :: ops => wfIn ops
+  | .unsubRaw _ :: _ => false
+  | .deliver _ _ :: ops => wfIn ops
+
+/-- the OUTPUT half of `wf` — a statement about the identifiers the implementation handed out (the suffix of each
+    `sub` is read off the id it returned): every identifier is FRESH, i.e. different from every identifier handed
+    out before for that (session, type), live or cancelled -/
+def freshFrom : List (Str × Nat × Nat) → List Op → Bool
+  | _, [] => true
+  | seen, .sub s t u :: ops => !seen.contains (s, t, u) && freshFrom (seen ++ [(s, t, u)]) ops
+  | seen, _ :: ops => freshFrom seen ops
+
+def fresh (ops : List Op) : Bool := freshFrom [] ops
+
+/-- **P12, complete**: the identifiers handed out are fresh, every delivery reached exactly the live subscribers of
+    its (session, type), and exactly the live subscriptions are retained. This is what the driver evaluates on the
+    implementation's observations. -/
+def PFull (ops : List Op) (dels : List (List Nat)) (ret : List Live) : Bool :=
+  fresh ops && P12 ops dels ret
+
 end Sygma.C12
